@@ -176,6 +176,13 @@ def two_event_window_family():
                         l.append(["B", "A", d1])
                     l += [[k2, "A", d2, r2], ["B", "A", d2]] if ev_first else [["B", "A", d2], [k2, "A", d2, r2]]
                     out.append((l, BASES[0]))
+    # ONE corporate action inside the window followed by lines of the security on two or three later days of the window
+    # (the window scan carries the ratio across every later date change): repurchases, or a sale then a repurchase
+    # (ratios with a terminating reciprocal only: with ratio 3 the real build's 28-digit quotients leave a dust leg of 1e-28
+    # shares - BUY 0.02; SELL 0.02; SPLIT 3; BUY 0.04; BUY 0.01; BUY 0.01 - which is decimal residue, outside the claim, DESIGN 8.6)
+    for (k, r) in (("X", "2"), ("U", "2"), ("X", "5/2")):
+        for later in ([["B", "A", 7], ["B", "A", 13]], [["S", "A", 7], ["B", "A", 13]], [["B", "A", 7], ["B", "A", 13], ["B", "A", 29]], [["D", "A", 7], ["B", "A", 13]]):
+            out.append(([["B", "A", 0], ["S", "A", 1], [k, "A", 3, r]] + later, BASES[0]))
     return out
 
 
@@ -206,7 +213,7 @@ def fam_c05(tier, seed):
 def bounds_matching(tier):
     if tier == "quick":
         return ("every B/S ledger of one security with 1..5 lines on day offsets {0,1,30,31} from 2024-01-10 (and, for ledgers of <= 4 lines spanning >= 29 days, "
-                "from 2024-02-01, 2024-03-07, 2023-12-05); a seed-rotated 1/8 of the 6-line ledgers; 2..3 trade lines plus one corporate-action/event line at every "
+                "from 2024-02-01, 2024-03-07, 2023-12-05, 2024-12-05 = end of a leap year); a seed-rotated 1/8 of the 6-line ledgers; 2..3 trade lines plus one corporate-action/event line at every "
                 "palette day (ratio 2); two securities with 2..4 lines on {0,1,30}; the same obligations through calculator::calculate for ledgers of <= 4 lines and <= 2 disposal days; "
                 "a split/unsplit of a second security that has no trades of its own; ~30 non-canonical 'interleaved' line orders (a day's buys and sells of one security alternating, or separated by another security's line, after an earlier buy and sale and before a repurchase); three 7-line ledgers of two securities repurchasing on one shared day; (C02/C03/C10/C11: a 30-day match across a split followed by a capital event; C05: split ratio 3 with a witness of every path and boundary witnesses replayed on the real build); "
                 "every quantity, price, fee, total a real-valued symbol (quantity > 0, money >= 0); <= 20000 paths per skeleton")
@@ -415,6 +422,12 @@ def fam_c12(tier, seed):
         last = max(x[2] for x in l)
         for k in ("B", "S"):
             items.append((l + [[k, "A", last + 31]], len(l)))
+    # prefixes in which a capital return / accumulation has been attached to a lot that is later used up completely (the solver
+    # chooses the quantities), continued by a split, unsplit or purchase: the earlier figures must not move
+    for ev in ("C", "M"):
+        for pre in ([["B", "A", 0], [ev, "A", 1], ["B", "A", 30], ["S", "A", 31]], [["B", "A", 0], [ev, "A", 1], ["S", "A", 30]]):
+            for suf in (["X", "A", 62, "2"], ["U", "A", 62, "2"], ["B", "A", 62], ["X", "A", 431, "2"]):
+                items.append((pre + [suf], len(pre)))
     sks = []
     # a long ledger kept security by security (each block chronological, the file as a whole not): 32 + 1 lines and 36 + 1 lines.
     # Same-day BUY / SELL / BUY lines within 30 days after a SELL make the order of same-day lines matter for cost, so the
@@ -427,6 +440,12 @@ def fam_c12(tier, seed):
         sks.append(mk(len(sks), "L", long, base="2023-01-10", wit=1, prefix=len(long) - 1, mode="P", level="report"))
     for i, (l, n) in enumerate(items):
         sks.append(mk(i, "m", l, wit=WIT, prefix=n))
+    # the same continuations just outside the window when the 30 days straddle the end of a normal year and of a leap year
+    k = 0
+    for l, n in items:
+        if len(l) == n + 1 and l[-1][0] in ("B", "S") and l[-1][2] - max(x[2] for x in l[:n]) in (31, 32) and max(x[2] for x in l[:n]) <= 1:
+            for b in BASES[3:]:
+                sks.append(mk(k, "e", l, wit=WIT, prefix=n, base=b)); k += 1
     j = 0
     for l, n in items:
         if n <= 2 and len(l) == n + 1:
@@ -792,8 +811,8 @@ SPECS["C08"] = dict(
 
 
 # ---------------------------------------------------------------------------------------------- converter
-def row(action, sym="A", day=0, spelling="dollar", listed=None, desc=None, same=None, nofee=False):
-    return [action, sym, day, spelling, listed, desc, same, nofee]
+def row(action, sym="A", day=0, spelling="dollar", listed=None, desc=None, same=None, nofee=False, negfee=False):
+    return [action, sym, day, spelling, listed, desc, same, nofee, negfee]
 
 
 def conv(i, pid, rows, base="2024-01-10", awards=None, **opts):
@@ -816,6 +835,10 @@ def fam_c18(tier, seed):
             sks.append(conv(i, "a", [row(a, spelling=sp)])); i += 1
         sks.append(conv(i, "a", [row(a, listed=2)])); i += 1
         sks.append(conv(i, "a", [row(a, nofee=True)])); i += 1
+    # a fee written with a minus sign (fee rebate / hostile export): whatever becomes of it, the output must remain valid DSL
+    for sp in ("dollar", "plain"):
+        sks.append(conv(i, "n", [row("Buy", spelling=sp, negfee=True)])); i += 1
+        sks.append(conv(i, "n", [row("Buy"), row("Sell", day=1, spelling=sp, negfee=True)])); i += 1
     # pairs and triples of rows over two symbols and two days, all row orders explored by the 'perm' variant
     core = ["Buy", "Sell", "Cash Dividend", "NRA Tax Adj", "Mystery Action", "Journal"]
     for a1, a2 in itertools.product(core, repeat=2):
